@@ -65,6 +65,7 @@ _OOO_NAMESPACES = {
     "xsi": "http://www.w3.org/2001/XMLSchema-instance",
 }
 _NUMBER_COLUMNS_REPEATED = "{" + _OOO_NAMESPACES["table"] + "}number-columns-repeated"
+_NUMBER_ROWS_REPEATED = "{" + _OOO_NAMESPACES["table"] + "}number-rows-repeated"
 _TEXT_C = "{" + _OOO_NAMESPACES["text"] + "}c"
 _TEXT_LINE_BREAK = "{" + _OOO_NAMESPACES["text"] + "}line-break"
 _TEXT_S = "{" + _OOO_NAMESPACES["text"] + "}s"
@@ -297,6 +298,19 @@ def ods_rows(source_ods_path, sheet=1):
     for _ in range(sheet - 1):
         location.advance_sheet()
     for table_row in _findall(table_element, "table:table-row", namespaces=_OOO_NAMESPACES):
+        rows_repeated_text = table_row.attrib.get(_NUMBER_ROWS_REPEATED, "1")
+        try:
+            rows_repeated_count = int(rows_repeated_text)
+        except ValueError:
+            raise errors.DataFormatError(
+                "table:number-rows-repeated is %s but must be an integer" % _compat.text_repr(rows_repeated_text),
+                location,
+            )
+        if rows_repeated_count < 1:
+            raise errors.DataFormatError(
+                "table:number-rows-repeated is %s but must be at least 1" % _compat.text_repr(rows_repeated_text),
+                location,
+            )
         row = []
         for table_cell in _findall(table_row, "table:table-cell", namespaces=_OOO_NAMESPACES):
             repeated_text = table_cell.attrib.get(_NUMBER_COLUMNS_REPEATED, "1")
@@ -316,8 +330,9 @@ def ods_rows(source_ods_path, sheet=1):
             cell_value = "\n".join(_ods_text(text_p, location) for text_p in text_ps)
             row.extend([cell_value] * repeated_count)
             location.advance_cell(repeated_count)
-        yield row
-        location.advance_line()
+        for _ in range(rows_repeated_count):
+            yield list(row)
+            location.advance_line()
 
 
 def fixed_rows(fixed_source, encoding, field_name_and_lengths, line_delimiter="any"):
